@@ -691,18 +691,19 @@ fn c07_cost(cases: &mut u64) -> Option<String> {
 }
 
 #[cfg(not(similar_verif))]
-fn c07_clock(_cases: &mut u64) -> Option<String> {
+fn c07_clock(_cases: &mut u64, _exact: bool) -> Option<String> {
     eprintln!("mode C07clock needs the crate built with --cfg similar_verif (virtual clock hook)");
     std::process::exit(2);
 }
 
 /// with the virtual clock: time runs out at the k-th deadline check, for every k
 #[cfg(similar_verif)]
-fn c07_clock(cases: &mut u64) -> Option<String> {
+fn c07_clock(cases: &mut u64, exact: bool) -> Option<String> {
     use similar::verif_clock as vc;
     let far = Instant::now() + Duration::from_secs(1_000_000);
     let rules = Rules { carried: Carried::WithinRun, finish: Fin::OnceAndLast, nonempty: true };
-    let lax = Rules { carried: Carried::Ignore, finish: Fin::Ignore, nonempty: false };
+    // C11 (exact = true): the captured ops carry exact indices on both sides under every expiry schedule
+    let lax = if exact { Rules { carried: Carried::Exact, finish: Fin::Ignore, nonempty: true } } else { Rules { carried: Carried::Ignore, finish: Fin::Ignore, nonempty: false } };
     let small = seqs(3, bd(5));
     let mut inputs: Vec<(String, Vec<u32>, Vec<u32>, bool)> = Vec::new();
     for o in &small {
@@ -2276,9 +2277,10 @@ fn main() {
     let (res, bounds) = match &mode[..] {
         "C01" => (c01(&mut cases), "alphabet {0,1,2}, len 0..=6, 3 algorithms x (embedded sub-range, guarded Index, extracted slices)"),
         "C07" => (c07(&mut cases), "alphabet {0,1,2}, len 0..=6, deadline expired at entry, raw algorithms + capture_diff_deadline; builder plumbing; work after expiry <= 8(N+M)+16 on 6 shapes of 40 and 300 items"),
-        "C07clock" => (c07_clock(&mut cases), "virtual clock (cfg similar_verif): alphabet {0,1,2} len 0..=5 x every deadline check k, plus 6 shapes of 120 items x sampled k; valid script, finish once, never-expiring == no deadline, work after expiry <= 8(N+M)+16"),
+        "C07clock" => (c07_clock(&mut cases, false), "virtual clock (cfg similar_verif): alphabet {0,1,2} len 0..=5 x every deadline check k, plus 6 shapes of 120 items x sampled k; valid script, finish once, never-expiring == no deadline, work after expiry <= 8(N+M)+16"),
         "C05bytes" => (c05_bytes(&mut cases), "[u8] line texts (feature bytes) of 0..=3 lines over {a, b, 0xFF, a 0xFE b}, terminated or not, radius 0/3, header on/off: UnifiedDiff::to_writer keeps every change line's bytes, equals Display on UTF-8, Display is its lossy decoding otherwise"),
         "C06" => (c06(&mut cases), "str: all strings of length 0..=4 over 15 scalars (ASCII, CR, LF, TAB, VT, FF, NUL, NBSP, U+2028, U+3000, U+0085, combining mark, 2- and 4-byte chars) + 4 longer texts; [u8]: all byte strings of length 0..=4 over 13 bytes incl. invalid UTF-8; lines / lines_and_newlines / words / chars; str vs [u8] on the same bytes"),
+        "C11clock" => (c07_clock(&mut cases, true), "virtual clock (cfg similar_verif, so the K1 hook is on too): alphabet {0,1,2} len 0..=5 x every deadline check k, plus 6 shapes of 120 items x sampled k: the ops of capture_diff_deadline carry exact indices on both sides (C11) under every expiry schedule"),
         "C08" => (c08(&mut cases), "alphabet {0,1,2}, len 0..=4, 6 hook stacks x 2 hook kinds x every failing call index"),
         "C02" => (c02(&mut cases), "alphabet {0,1,2}, len 0..=5, deadline none/expired, slices + sub-ranges + TextDiff chars; 15 text diffs of 101..260 tokens through the integer-mapping path"),
         "C03" => (c03(&mut cases), "alphabet {0,1,2} len 0..=6 and alphabet {0,1} len 0..=8, Myers + LCS, raw + captured"),
